@@ -81,6 +81,7 @@ def run_prop(prop, tier):
         convert.run_stream(chk, model, bres, rng('C05', 'convert'), 12 if tier == 'quick' else 80, ATTRS)
         from harness import defaults
         defaults.run_stream(chk, model, bres, rng('C05', 'defaults'), 600 if tier == 'quick' else 6000)
+        defaults.sequence_stream(chk, model, bres, rng('C05', 'dimension-sequences'), 150 if tier == 'quick' else 1500)
         convert.run_numberlike(chk, model, bres, rng('C05', 'number-like'), 600 if tier == 'quick' else 6000, ATTRS)
     else:
         wf.iflr_correspondence(runs, model, bres, chk)
